@@ -56,11 +56,12 @@ type params struct {
 	early   bool // start handing off before the connection attempt has been answered
 	late    bool // start handing off while a later reconnect attempt is in progress
 	admin   bool // an admin thread changes the destination's address (a dial that hangs) while traffic flows
+	remove  bool // an admin thread removes the destination from the route (Shutdown of a destination whose connection may be failing at that moment) while traffic flows
 	spool   bool // spooling on (in-memory filesystem), lines enter the spool at the production pace of 500 us each
 }
 
 func (p params) String() string {
-	return fmt.Sprintf("endpoint=%s lines=%d iobuf=%d connbuf=%d early=%v late=%v admin=%v spool=%v", behaviours[p.beh].name, p.nlines, p.iobuf, p.connbuf, p.early, p.late, p.admin, p.spool)
+	return fmt.Sprintf("endpoint=%s lines=%d iobuf=%d connbuf=%d early=%v late=%v admin=%v spool=%v remove=%v", behaviours[p.beh].name, p.nlines, p.iobuf, p.connbuf, p.early, p.late, p.admin, p.spool, p.remove)
 }
 
 type exec struct {
@@ -103,6 +104,16 @@ func (e *exec) Body() {
 			rt.UpdateDestination(0, map[string]string{"addr": "10.1.1.1:2003"})
 		})
 	}
+	removed := !e.p.remove
+	if e.p.remove {
+		// "delDest r 0" from the admin interface
+		vrt.GoNamed("admin", func() {
+			if err := rt.DelDestination(0); err != nil && e.viol == "" {
+				e.viol = "DelDestination(0) returned " + err.Error()
+			}
+			removed = true
+		})
+	}
 	c0 := counters(d.Key)
 	var lines []string
 	for i := 0; i < e.p.nlines; i++ {
@@ -125,6 +136,10 @@ func (e *exec) Body() {
 	}
 	vrt.Sleep(3500 * time.Millisecond)
 	vrt.Quiesce()
+	// whether the removal itself returns is not part of this property (it waits for a flush that an
+	// endpoint which never reads can hold up for ever; and three callers of Conn.close() share a
+	// two-slot channel): recorded in the outcome only
+	adminReturned := removed
 	c1 := counters(d.Key)
 	slow, down := c1["slow_conn"]-c0["slow_conn"], c1["conn_down"]-c0["conn_down"]
 	recv := e.net.AllRecv()
@@ -135,6 +150,9 @@ func (e *exec) Body() {
 		}
 	}
 	e.out = fmt.Sprintf("recv=%d slow=%d down=%d", got, slow, down)
+	if e.p.remove {
+		e.out += fmt.Sprintf(" delDest-returned=%v", adminReturned)
+	}
 	if e.viol != "" {
 		return
 	}
@@ -146,7 +164,7 @@ func (e *exec) Body() {
 		e.viol = "the other route did not get every line"
 		return
 	}
-	if e.p.admin || e.p.spool {
+	if e.p.admin || e.p.spool || e.p.remove {
 		return // only the hand-off bound is judged while the address is being changed / with spooling (accounting: C07)
 	}
 	switch behaviours[e.p.beh].name {
@@ -218,6 +236,12 @@ func main() {
 					if strings.HasPrefix(behaviours[b].name, "closes-after") && !early && iobuf == 8 {
 						q := p
 						q.spool = true
+						scns = append(scns, &vrt.Scenario{Name: q.String(), Cfg: vrt.Config{MaxSteps: 60000, Horizon: 20 * time.Minute}, Model: vrt.CostDelay, Bound: bound,
+							New: func() vrt.Exec { return &exec{p: q} }})
+					}
+					if (strings.HasPrefix(behaviours[b].name, "closes-after") || behaviours[b].name == "never-reads") && !early && iobuf == 8 {
+						q := p
+						q.remove = true
 						scns = append(scns, &vrt.Scenario{Name: q.String(), Cfg: vrt.Config{MaxSteps: 60000, Horizon: 20 * time.Minute}, Model: vrt.CostDelay, Bound: bound,
 							New: func() vrt.Exec { return &exec{p: q} }})
 					}
